@@ -429,12 +429,21 @@ def c17(run, tier):
     record_and_judge(run, "html-record", ["-n", str(Q(tier, 1500, 30000))], "tag-soup", "C17.trace", ADAPTER_ASPECTS)
 
 
+def c09(run, tier):
+    import os
+    cfg = run.cfg("MC_Xml.cfg", {"MaxItems": Q(tier, 4, 4), "FullProduct": Q(tier, "FALSE", "TRUE")}, "gen.cfg")
+    trace = os.path.join(run.work, "xml.ndjson")
+    rep = run.tlc_gen_replay("MC_Xml", cfg, "documents", harness_args=["-out", trace], timeout=Q(tier, 600, 3600), heap=Q(tier, "8g", "24g"))
+    run.absorb(rep, ADAPTER_ASPECTS)
+    run.judge_trace(trace, "Trace_Store", "xml-trees", "C09.store", timeout=3000)
+
+
 def adapter_replay(run, path):
     import json, os, subprocess
     rc = json.load(open(path))
     run.build_harness()
     fam = rc.get("fam", "")
-    if fam in ("C16.json",):
+    if fam in ("C16.json", "C09.xml"):
         p = subprocess.run([run.harness, "replay-one", path], env=run.env)
         if p.returncode == 1:
             print("VIOLATION property=%s replay=%s" % (run.pid, path))
@@ -529,6 +538,15 @@ PROPS = {
             "(26 tag names incl. svg/math/template/select/table, void elements, mis-nested end tags, xmlns / xmlns:xlink / xlink:href / prefixed attributes, comments after </html>) is parsed by "
             "golang.org/x/net/html (the oracle the property names); the DOM, the Pull stream and the cursor snapshot are logged and Trace_Store judges Pulls = HtmlEvents(DOM) and the Cursor contract",
             "exhaustive": {"quick": True, "thorough": True}, "assumptions": BASE_ASSUME + ["golang.org/x/net/html.Parse is the HTML5 parsing algorithm (the property's own oracle)"]},
+    "C09": {"run": c09, "replay": adapter_replay,
+            "rule": "TLC builds every well-formed, namespace-conformant item sequence of <= 4 items (+ closing tags) over 8 start tags (quick; thorough: the full product of 3 QNames x 6 declaration sets x 3 attribute sets) "
+            "- default namespace, its undeclaration xmlns='', prefix override, alias, inherited prefix use, prefixed/unprefixed attributes - 4 character-data items (plain, CDATA with markup characters, references, white space), "
+            "comment and PI inside and outside the document element, and checks Refines (the Store machine fed with XmlEvents builds XmlTree) and DataModelOK; each document is serialised 4 ways (no declaration; UTF-8 with p/q swapped; "
+            "an 8-bit encoding label with other prefix spellings; declaration without encoding) with seeded quoting, empty-element tags, CDATA/reference spelling, then read through xsel.ReadXml and through a Pull-logging "
+            "wrapper: tree vs XmlTree, Pull stream vs XmlEvents, snapshot judged by Trace_Store; 8 malformed variants per document (unclosed, mismatched tag, undefined entity, control character, bare &, stray <, invalid UTF-8, unknown encoding) must give an error",
+            "exhaustive": {"quick": True, "thorough": True},
+            "assumptions": BASE_ASSUME + ["8-bit encodings are exercised only on code points where IANA and WHATWG tables agree (0x00-0x7F, 0xA0-0xFF); other characters are written as character references",
+                                          "CR and attribute-value TAB/LF are generated only as character references (normalisation is the decoder's business)"]},
     "C01": {
         "run": c01,
         "rule": "TLC enumerates every document the Store machine can build within the node bound (all kinds, names a/b x {no namespace,U1}), "
